@@ -42,7 +42,7 @@ pub fn ref_domain(f: Family, fr: &FamRefs, level: u8, path_n: usize, path_level:
 pub fn run(ctx: &Ctx) -> Report {
 	let refs = Refs::new(&ctx.root);
 	let mut total = Report::new();
-	total.rule = "RAW: every string of <= n tokens over {a : / ? # @ 1 %41 . [ ] (é)} (+decoys in thorough) accepted by the reference URI-/IRI-reference DFA; REF: compositions scheme x AUTH x PATH x query x fragment that re-split to the chosen components, plus compositions of components of 7..9 / 15..17 / 31..33 bytes; one case = one reference text through accessors, parts(), borrowed and owned, reference and non-reference type; non-trivial = distinct valid text".into();
+	total.rule = "RAW: every string of <= n tokens over {a : / ? # @ 1 %41 . [ ] (é)} (+decoys in thorough) accepted by the reference URI-/IRI-reference DFA; REF: compositions scheme x AUTH x PATH x query x fragment that re-split to the chosen components, plus compositions of components of 7..9 / 15..17 / 31..33 bytes, schemes of 254..300 bytes, and every printable ASCII character one at a time in every component position; one case = one reference text through accessors, parts(), borrowed and owned, reference and non-reference type; non-trivial = distinct valid text".into();
 	let raw_n = ctx.pick(7usize, 8usize);
 	for f in Family::active() {
 		let fr = FamRefs::new(refs, f);
@@ -246,6 +246,31 @@ pub fn run(ctx: &Ctx) -> Report {
 				r
 			});
 			total.count(&format!("{}_block_length_refs", f.name()), r.states);
+			total.merge(r);
+		}
+		// every printable ASCII character, one at a time, in every component position
+		{
+			let texts = domains::ascii_sweep(&[
+				"X", "aX", "Xa", "s:X", "s:aXb", "sX:a", "//X", "//uX@h", "//X@h", "//hX", "//hX:1", "//h:1X", "//[::1]X", "/pX/q", "/p/Xq", "?X", "?aXb", "#X", "#aXb", "s://u@h:1/pX?qX#fX",
+				"s://h/p?q#fX", "s://h/p?qX#f", "s://hX/p?q#f", "X//h", "a/X:b",
+			]);
+			let mut r = Report::new();
+			let mut vs = Vec::new();
+			for t in &texts {
+				if !fr.valid(Kind::RiRef, t) {
+					continue;
+				}
+				r.states += 1;
+				let e = by_family!(f, c02_case(t, &fr, &mut vs));
+				r.evaluations += e;
+				r.transitions += e;
+				for v in vs.drain(..) {
+					r.violate(v);
+				}
+			}
+			r.distinct_nontrivial = r.states;
+			r.traces = r.states;
+			total.count(&format!("{}_ascii_sweep_valid", f.name()), r.states);
 			total.merge(r);
 		}
 		if ctx.out_of_time() {
